@@ -762,6 +762,10 @@ func (w *c04world) runPlan(out *vharness.Out, kind string, h *c04history, like *
 		if w.getters != "" {
 			ok, note = false, fmt.Sprintf("history %v, %s: %s", h.desc, planDesc, w.getters)
 		}
+		// reading the state must not change it
+		if again := w.observe(ms, q); ok && again != obs {
+			ok, note = false, fmt.Sprintf("history %v, %s: reading the state twice gives two answers: %s", h.desc, planDesc, c04firstDiff(obs, again))
+		}
 		if h.contact {
 			sent, other, txt := w.aliasObs(ms)
 			obs += " | " + txt
